@@ -17,6 +17,7 @@ FlagsG2   == {{}, {"G", "P"}}
 FlagsGP   == {{}, {"G"}, {"G", "P"}}
 FlagsGPS  == {{}, {"G"}, {"G", "S"}, {"P"}}
 FlagsT2   == {{"G", "S"}}
+FlagsTe   == {{}, {"G", "S"}}
 Both      == {TRUE, FALSE}
 NoDb      == {FALSE}
 OnlyDb    == {TRUE}
